@@ -216,3 +216,19 @@ def _(v):
     r3 = ReactionSystem(rxns, OrderedDict((n, Substance(n)) for n in "ABC"), checks=())
     v.prove("unknown_key_detected", v.call(r3.check_substance_keys) is False)
     v.prove("unknown_key_throws", v.run(r3.check_substance_keys, throw=True).raised(ValueError))
+
+
+@harness("C15", "categorize_substances.fractional_coefficients", functions=["chempy.reactionsystem:ReactionSystem.categorize_substances"], kind="data")
+def _(v):
+    """coefficients need not be integers (Fraction / float, admitted with checks=() or dont_check={'all_integral'}): the four categories are still
+    decided by the SIGN of what each reaction does to the species"""
+    from fractions import Fraction as Fr
+    from chempy.chemistry import Reaction, Substance
+    from chempy.reactionsystem import ReactionSystem
+    mk = lambda rxns, names: ReactionSystem(rxns, [Substance(n) for n in names], checks=())
+    c = mk([Reaction({"H2O2": 1}, {"H2O": 1, "O2": 0.5}, checks=())], ["H2O2", "H2O", "O2", "N2"]).categorize_substances()
+    v.prove("half_a_product", c == dict(accumulated={"H2O", "O2"}, depleted={"H2O2"}, unaffected=set(), nonparticipating={"N2"}), detail=repr(c))
+    c = mk([Reaction({"A": 1, "C": Fr(3, 2)}, {"B": 1, "C": 1}, checks=())], ["A", "B", "C"]).categorize_substances()
+    v.prove("net_consumption_of_half_a_catalyst", c == dict(accumulated={"B"}, depleted={"A", "C"}, unaffected=set(), nonparticipating=set()), detail=repr(c))
+    c = mk([Reaction({"A": Fr(1, 3)}, {"B": Fr(1, 4)}, checks=()), Reaction({"B": 0.25, "D": 1}, {"A": Fr(1, 3), "D": 1.0}, checks=())], ["A", "B", "D"]).categorize_substances()
+    v.prove("fractions_below_one", c == dict(accumulated=set(), depleted=set(), unaffected={"D"}, nonparticipating=set()), detail=repr(c))
